@@ -166,7 +166,7 @@ theorem pinv_visit {E : Env} (hincr : Incr E.nx) {s : St} (hq : QInv s) {pre : L
       | some r =>
         obtain ⟨y, hy, _⟩ := hc.run_busy it.id (by simp [hr])
         rw [hb] at hy; cases hy
-    have hdue' : it.next + it.off ≤ s.now := by simpa [isDue] using hdue
+    have hdue' : it.next + it.off ≤ s.now := by simpa [isDue_def] using hdue
     have hwhn := hq.whn it hit
     let v := m.view it.id
     let m' := m.set it.id { v with expect := E.nx it.sc it.next, run := some { occ := it.next, floor := v.ck } }
